@@ -35,9 +35,9 @@ import (
 func main() { vlib.Run("C22", run) }
 
 func run(c *vlib.Ctx) {
-	c.Rule("histories of 5-20 ops {Pin(recursive|direct,name), PinWithMode(6 modes), Unpin(+-recursive), Update(+-unpin), Flush, Reopen, SetAutosync} over a random DAG of 5-9 nodes with shared subtrees (+1 CID absent from the store); 30% of mutating ops run with a fault (1-2 blocks missing for the op, context cancelled before the op, at its n-th block fetch or at its n-th datastore access); full query vector for every pool CID after every op; stratum `clean` re-draws ops that would be a faulted recursive re-pin or an Update onto a directly pinned CID, stratum `any` does not; distinct = FNV of DAG+op list; non-trivial = some op returned an error while pins existed AND some CID was indirectly pinned through two roots or a recursive root lay below another root AND a pin was replaced (new name or direct->recursive)")
-	c.Cases("clean", c.N(400, 2000), func(k *vlib.Case) { oneHistory(k, true) })
-	c.Cases("any", c.N(200, 1000), func(k *vlib.Case) { oneHistory(k, false) })
+	c.Rule("histories of 5-20 ops {Pin(recursive|direct,name), PinWithMode(6 modes), Unpin(+-recursive), Update(+-unpin), Flush, Reopen, SetAutosync} over a random DAG of 5-9 nodes with shared subtrees (+1 CID absent from the store); 30% of mutating ops run with a fault (1-2 blocks missing for the op, context cancelled before the op, at its n-th block fetch or at its n-th datastore access); full query vector for every pool CID after every op. Stratum `hist`: all blocks present between ops, exact oracle. Stratum `incomplete`: blocks are lost/restored persistently between ops and PinWithMode(recursive) (which never fetches) is frequent, so recursive roots have incomplete graphs; there a traversal query may return an error, otherwise its answer must agree with the model (weak oracle), and IsPinned/CheckIfPinned must agree when both succeed. distinct = FNV of DAG+op list; non-trivial (`hist`) = some op returned an error while pins existed AND some CID was indirectly pinned through two roots or a recursive root lay below another root AND a pin was replaced (new name or direct->recursive); non-trivial (`incomplete`) = at some step a recursive root had a lost block in its graph while another, complete root indirectly pinned a CID")
+	c.Cases("hist", c.N(420, 2000), func(k *vlib.Case) { oneHistory(k, false) })
+	c.Cases("incomplete", c.N(180, 1000), func(k *vlib.Case) { oneHistory(k, true) })
 }
 
 // ---------------------------------------------------------------- fault DAG
@@ -46,7 +46,8 @@ type faultDAG struct {
 	ipld.DAGService
 	mu          sync.Mutex
 	missing     map[cid.Cid]bool
-	cancelAfter int // cancel at the Get with this index; -1 = never
+	gone        map[cid.Cid]bool // persistently lost blocks (stratum `incomplete`)
+	cancelAfter int              // cancel at the Get with this index; -1 = never
 	cancel      context.CancelFunc
 	gets        int
 	fired       bool
@@ -55,6 +56,19 @@ type faultDAG struct {
 func (f *faultDAG) arm(missing map[cid.Cid]bool, cancelAfter int, cancel context.CancelFunc) {
 	f.mu.Lock()
 	f.missing, f.cancelAfter, f.cancel, f.gets, f.fired = missing, cancelAfter, cancel, 0, false
+	f.mu.Unlock()
+}
+
+func (f *faultDAG) setGone(c cid.Cid, gone bool) {
+	f.mu.Lock()
+	if f.gone == nil {
+		f.gone = map[cid.Cid]bool{}
+	}
+	if gone {
+		f.gone[c] = true
+	} else {
+		delete(f.gone, c)
+	}
 	f.mu.Unlock()
 }
 
@@ -70,7 +84,7 @@ func (f *faultDAG) Get(ctx context.Context, c cid.Cid) (ipld.Node, error) {
 	f.mu.Lock()
 	n := f.gets
 	f.gets++
-	miss := f.missing[c]
+	miss := f.missing[c] || f.gone[c]
 	doCancel := f.cancelAfter >= 0 && n >= f.cancelAfter
 	cancel := f.cancel
 	if miss || doCancel {
@@ -204,6 +218,97 @@ type world struct {
 	absent int
 
 	knownReported bool
+
+	incomplete bool         // stratum `incomplete`
+	gone       map[int]bool // persistently lost blocks
+}
+
+// incompleteRoot reports whether recursive root r of any model has a lost
+// block in its graph (itself included).
+func (w *world) incompleteRoot(r int) bool {
+	if w.gone[r] {
+		return true
+	}
+	for d := range w.reach[r] {
+		if w.gone[d] {
+			return true
+		}
+	}
+	return false
+}
+
+// mayError: with an incomplete recursive root a query that has to traverse the
+// recursive roots may legitimately fail. Batch queries fail as a whole.
+func (w *world) mayError(m *model, q string, ci int) bool {
+	if !w.incomplete || ci < 0 {
+		return false
+	}
+	any := false
+	for r := range m.R {
+		any = any || w.incompleteRoot(r)
+	}
+	if !any {
+		return false
+	}
+	_, inR := m.R[ci]
+	_, inD := m.D[ci]
+	switch strings.TrimSuffix(q, "+names") {
+	case "IsPinned", "IsPinnedWithType/any":
+		return !inR && !inD
+	case "IsPinnedWithType/indirect":
+		return !inR
+	case "CheckIfPinned", "CheckIfPinnedWithType/any", "CheckIfPinnedWithType/indirect":
+		return true
+	}
+	return false
+}
+
+// crossCheck: IsPinned and CheckIfPinned must agree on pinned-ness whenever
+// both returned without error.
+func (w *world) crossCheck(obs []qres) {
+	single, batch := map[int]string{}, map[int]string{}
+	for _, r := range obs {
+		switch r.q {
+		case "IsPinned":
+			single[r.ci] = r.val
+		case "CheckIfPinned":
+			batch[r.ci] = r.val
+		}
+	}
+	for ci, a := range single {
+		b, ok := batch[ci]
+		if !ok || a == vErr || b == vErr || ci < 0 {
+			continue
+		}
+		if strings.HasPrefix(a, "true") != (b != "notpinned") {
+			w.k.Fail("ispinned-vs-checkifpinned", "IsPinned and CheckIfPinned agree when both succeed", fmt.Sprintf("IsPinned(c%d)=%q", ci, a), fmt.Sprintf("CheckIfPinned(c%d)=%q", ci, b))
+			return
+		}
+	}
+}
+
+// sameVector compares two query vectors; in the `incomplete` stratum entries
+// that failed on either side are skipped (which root a traversal meets first
+// depends on the datastore's iteration order).
+func (w *world) sameVector(a, b []qres) bool {
+	if !w.incomplete {
+		return vector(a) == vector(b)
+	}
+	if len(a) != len(b) {
+		return false
+	}
+	for i := range a {
+		if a[i].q != b[i].q || a[i].ci != b[i].ci {
+			return false
+		}
+		if a[i].val == vErr || b[i].val == vErr {
+			continue
+		}
+		if a[i].val != b[i].val {
+			return false
+		}
+	}
+	return true
 }
 
 // viaRoots lists the recursive roots of m that have ci as a proper descendant.
@@ -510,6 +615,10 @@ func (w *world) compare(obs []qres, m *model) []mismatch {
 	var out []mismatch
 	for _, r := range obs {
 		want := w.expected(m, r.q, r.ci)
+		if r.val == vErr && w.mayError(m, r.q, r.ci) {
+			w.k.C.Count("query_errors_accepted_incomplete_root", 1)
+			continue
+		}
 		ok := false
 		for _, v := range want {
 			if v == r.val {
@@ -573,14 +682,18 @@ func (f fault) String() string {
 
 var nameChoices = []string{"", "", "n1", "n2", "a/b", "x\x00y", "n1"}
 
-func oneHistory(k *vlib.Case, clean bool) {
+func oneHistory(k *vlib.Case, incomplete bool) {
+	const clean = false // the trigger-avoiding stratum is gone: the three C22 defects are fixed in /repo
 	r := k.R
 	bg := context.Background()
 	store := &cancelDS{Datastore: dssync.MutexWrap(ds.NewMapDatastore()), at: -1}
 	bs := bstore.NewBlockstore(dssync.MutexWrap(ds.NewMapDatastore()))
 	real := mdag.NewDAGService(bserv.New(bs, offline.Exchange(bs)))
 	fd := &faultDAG{DAGService: real, cancelAfter: -1}
-	w := &world{k: k, store: store, fd: fd, index: map[cid.Cid]int{}, m: newModel(), auto: true}
+	w := &world{k: k, store: store, fd: fd, index: map[cid.Cid]int{}, m: newModel(), auto: true, incomplete: incomplete, gone: map[int]bool{}}
+	if incomplete {
+		k.Logf("stratum incomplete: blocks may be lost between operations")
+	}
 
 	// random DAG, leaves first
 	n := r.Range(5, 9)
@@ -658,9 +771,65 @@ func oneHistory(k *vlib.Case, clean bool) {
 		return
 	}
 
-	sawErrWithPins, sawSharing, sawReplace := false, false, false
+	sawErrWithPins, sawSharing, sawReplace, sawIncompleteBesideComplete := false, false, false, false
+	noteIncomplete := func() {
+		inc := false
+		for rt := range w.m.R {
+			inc = inc || w.incompleteRoot(rt)
+		}
+		if !inc {
+			return
+		}
+		for ci := range w.pool {
+			if _, inR := w.m.R[ci]; inR {
+				continue
+			}
+			for _, rt := range w.viaRoots(w.m, ci) {
+				if !w.incompleteRoot(rt) {
+					sawIncompleteBesideComplete = true
+				}
+			}
+		}
+	}
 	nops := r.Range(5, 20)
 	for i := 0; i < nops; i++ {
+		// ---- stratum `incomplete`: lose / restore a block between operations
+		if incomplete && r.Chance(1, 4) {
+			ci := r.Intn(n)
+			if len(w.m.R) > 0 && r.Chance(2, 3) { // aim below a recursive root
+				var roots, ds []int
+				for rt := range w.m.R {
+					roots = append(roots, rt)
+				}
+				sort.Ints(roots)
+				rt := roots[r.Intn(len(roots))]
+				for d := range w.reach[rt] {
+					ds = append(ds, d)
+				}
+				sort.Ints(ds)
+				if len(ds) > 0 {
+					ci = ds[r.Intn(len(ds))]
+				}
+			}
+			if w.gone[ci] {
+				k.Logf("Restore block c%d", ci)
+				delete(w.gone, ci)
+				fd.setGone(w.pool[ci], false)
+			} else {
+				k.Logf("Lose block c%d", ci)
+				w.gone[ci] = true
+				fd.setGone(w.pool[ci], true)
+			}
+			obs := w.observe(bg)
+			w.crossCheck(obs)
+			if ms := w.compare(obs, w.m); len(ms) > 0 {
+				k.Fail("state-mismatch/block-lost-or-restored", "with an incomplete recursive root a query fails or agrees with the pin model "+w.m.String(), "error or model answers", describe(ms))
+				break
+			}
+			noteIncomplete()
+			prev = obs
+			continue
+		}
 		// ---- choose the operation
 		var (
 			desc    string
@@ -727,6 +896,9 @@ func oneHistory(k *vlib.Case, clean bool) {
 			}
 		case op < 55: // PinWithMode
 			md := []ipfspin.Mode{ipfspin.Recursive, ipfspin.Recursive, ipfspin.Direct, ipfspin.Direct, ipfspin.Indirect, ipfspin.Internal, ipfspin.NotPinned, ipfspin.Any, ipfspin.Mode(99)}[r.Intn(9)]
+			if incomplete && r.Chance(1, 2) {
+				md = ipfspin.Recursive // never fetches: the way to get a root with an incomplete graph
+			}
 			ci := pickPinned()
 			if md == ipfspin.Recursive && ci == w.absent {
 				ci = pickPresent() // a recursive root whose block does not exist makes every traversal fail
@@ -881,6 +1053,18 @@ func oneHistory(k *vlib.Case, clean bool) {
 		if clean && f.kind != "" && repinR {
 			f = fault{} // trigger of failed-repin/pin-lost
 		}
+		// persistently lost blocks in the graph the operation has to walk
+		goneHit := false
+		for _, t := range touches {
+			goneHit = goneHit || w.incompleteRoot(t)
+		}
+		if goneHit && must == "succeed" {
+			if kind == "Pin-recursive" {
+				must = "fail" // Pin must make sure the whole graph is local
+			} else {
+				must = "either" // Update only fetches the difference
+			}
+		}
 		// how the fault changes what the statement lets us demand
 		if f.kind != "" && must == "succeed" {
 			switch f.kind {
@@ -941,6 +1125,7 @@ func oneHistory(k *vlib.Case, clean bool) {
 		}
 
 		obs := w.observe(bg)
+		w.crossCheck(obs)
 		stop := false
 		if opErr != nil {
 			if must == "succeed" {
@@ -950,7 +1135,7 @@ func oneHistory(k *vlib.Case, clean bool) {
 				k.Fail("unpin-errclass", "Unpin of a CID without a direct/recursive pin returns ErrNotPinned", ipfspin.ErrNotPinned.Error(), opErr.Error())
 			}
 			// clause: a failed call changes nothing
-			if v0, v1 := vector(prev), vector(obs); v0 != v1 {
+			if !w.sameVector(prev, obs) {
 				stop = true
 				cls := "failed-op-changed-state/" + kind
 				// classify: is the only change that the re-pinned recursive root lost its pin?
@@ -966,7 +1151,7 @@ func oneHistory(k *vlib.Case, clean bool) {
 		} else {
 			if must == "fail" {
 				cls := "unexpected-success/" + kind
-				if f.kind == "missing" && kind == "Pin-recursive" {
+				if (f.kind == "missing" || goneHit) && kind == "Pin-recursive" {
 					cls = "pin-succeeded/graph-incomplete"
 				}
 				k.Fail(cls, "operation is refused under the model", "error", "nil")
@@ -1010,13 +1195,18 @@ func oneHistory(k *vlib.Case, clean bool) {
 				sawSharing = true
 			}
 		}
+		noteIncomplete()
 		if stop {
 			break
 		}
 		prev = obs
 	}
 	w.p.Close()
-	if sawErrWithPins && sawSharing && sawReplace {
+	if incomplete {
+		if sawIncompleteBesideComplete {
+			k.Nontrivial()
+		}
+	} else if sawErrWithPins && sawSharing && sawReplace {
 		k.Nontrivial()
 	}
 }
